@@ -8,6 +8,7 @@ import ast
 import builtins
 import symtable
 
+from ..match import facts, Q
 from ..srcmodel import attr_chain, call_name, unparse, norm_text, walk_no_nested
 from ..cfg import cfg_of
 from ..dataflow import Origins
@@ -256,12 +257,12 @@ def r4_persistent_stability(run):
         [unparse(a) for a in ml[0][1].args] == \
         ["userid", "sp_name_qualifier", "name_qualifier"]
     if ok:
-        gs = {(unparse(e), p) for e, p, _ in cfg.guards(gn[0][0].id)}
-        ok = ("nameid", False) in gs and \
+        gs = facts(cfg, gn[0][0].id)
+        ok = Q("nameid", False) in gs and \
             unparse(arg_of(gn[0][1], 1)) == "NAMEID_FORMAT_PERSISTENT"
         rets = [r for r in cfg.by_kind("return")
                 if unparse(r.ast.value) == "nameid"]
-        ok = ok and len(rets) == 1 and ("nameid", True) in {
+        ok = ok and len(rets) == 1 and Q("nameid", True) in {
             (unparse(e), p) for e, p, _ in cfg.guards(rets[0].id)}
     run.check(ok, "R4", fi.qual + "::lookup-first",
               "an existing identifier is returned; a new one only when none "
@@ -289,11 +290,11 @@ def r4_persistent_stability(run):
         if unparse(r.ast.value) != "nid":
             continue
         n += 1
-        gs = {(unparse(e), p) for e, p, _ in mcfg.guards(r.id)}
-        sp_ok = ("snq == sp_name_qualifier", True) in gs or \
-            {("snq", False), ("sp_name_qualifier", False)} <= gs
-        nq_ok = ("nq == name_qualifier", True) in gs or \
-            {("nq", False), ("name_qualifier", False)} <= gs
+        gs = facts(mcfg, r.id)
+        sp_ok = Q("snq == sp_name_qualifier", True) in gs or \
+            {Q("snq", False), Q("sp_name_qualifier", False)} <= gs
+        nq_ok = Q("nq == name_qualifier", True) in gs or \
+            {Q("nq", False), Q("name_qualifier", False)} <= gs
         run.check(sp_ok and nq_ok, "R4",
                   "%s::return-nid@%d" % (mf.qual, n),
                   "returned only when both qualifiers match (or both absent)",
